@@ -155,6 +155,9 @@ def run(pid, tier, seed):
     d = outdir(pid)
     binp = build_harness(d)
     parts = [("engine", collect(pid, tier, seed, d, binp))]
+    if pid in ("C01", "C18"):
+        import fam_tables
+        parts.append(("defaults", fam_tables.collect_defaults(pid, tier, seed, d, binp)))   # nodes that provide only some phases
     if pid in WITH_BATCH:
         parts.append(("batch", fam_batch.collect(pid, tier, seed, d, binp)))
     if pid in ("C02", "C05"):
